@@ -76,10 +76,26 @@ def _decoder_raise_sets():
                 bad.append((name, type(e).__name__, data.hex()))
         try:
             _json.JSONDecoder().decode(data.decode("latin-1"))
-        except (_json.JSONDecodeError, RecursionError):
+        except (_json.JSONDecodeError, RecursionError, ValueError):
             pass
         except Exception as e:  # noqa: BLE001
             bad.append(("json", type(e).__name__, data.hex()))
+    # directed inputs for the two non-obvious classes of the json stub (deep nesting, over-long integer literal), and codecs
+    # whose str() raises the UnicodeError base class itself (idna)
+    for doc, want in (("[" * 100000, RecursionError), ("1" * 5000, ValueError)):
+        try:
+            _json.JSONDecoder().decode(doc)
+            bad.append(("json-directed", "returned", doc[:8]))
+        except want:
+            pass
+        except Exception as e:  # noqa: BLE001
+            bad.append(("json-directed", type(e).__name__, doc[:8]))
+    try:
+        str(b"xn--a", "idna", "strict")
+    except UnicodeError:
+        pass
+    except Exception as e:  # noqa: BLE001
+        bad.append(("str-idna", type(e).__name__, "xn--a"))
     return {"id": "stdlib-decoder-raise-sets", "ok": not bad, "detail": bad[:5] or "3000 random inputs x 4 decoders: only the assumed classes were raised"}
 
 
